@@ -90,3 +90,59 @@ Definition show_token (t : token) : text :=
   k ++ [58] ++ p ++ [58] ++ enc_text (t_lexeme t) ++ [58] ++ show_N (t_line t) ++ [58] ++ enc_text (t_file t).
 
 Definition show_tokens (ts : list token) : text := [111;107;32] ++ join [sp] (map show_token ts).
+
+(** AST rendering (same S-expression format as harness/src/main.rs) *)
+Definition show_pos (p : pos) : text := show_N (p_line p) ++ [47] ++ enc_text (p_file p).
+Definition paren (l : list text) : text := [40] ++ join [sp] l ++ [41].
+Definition brack (l : list text) : text := [91] ++ join [sp] l ++ [93].
+
+Definition binop_names (o : binop) : text * text :=
+  let dash := [45] in
+  match o with
+  | BOr => ([79;114], dash) | BAnd => ([65;110;100], dash)
+  | BEq => ([69;113;117;97;108;105;116;121], fst (kind_name TEqEq)) | BNe => ([69;113;117;97;108;105;116;121], fst (kind_name TNotEq))
+  | BLt => ([67;111;109;112;97;114;105;115;111;110], fst (kind_name TLt)) | BLe => ([67;111;109;112;97;114;105;115;111;110], fst (kind_name TLe))
+  | BGt => ([67;111;109;112;97;114;105;115;111;110], fst (kind_name TGt)) | BGe => ([67;111;109;112;97;114;105;115;111;110], fst (kind_name TGe))
+  | BAdd => ([65;100;100;79;114;83;117;98], fst (kind_name TPlus)) | BSub => ([65;100;100;79;114;83;117;98], fst (kind_name TMinus))
+  | BMul => ([77;117;108;79;114;68;105;118;79;114;82;101;109;97;105;110;100;101;114], fst (kind_name TMul))
+  | BDiv => ([77;117;108;79;114;68;105;118;79;114;82;101;109;97;105;110;100;101;114], fst (kind_name TDiv))
+  | BRem => ([77;117;108;79;114;68;105;118;79;114;82;101;109;97;105;110;100;101;114], fst (kind_name TRem))
+  end.
+
+Fixpoint show_expr (e : expr) : text :=
+  match e with
+  | ENil p => paren [[110;105;108]; show_pos p]
+  | EBool b p => paren [[98;111;111;108]; [if b then 49 else 48]; show_pos p]
+  | ENum x p => paren [[110;117;109]; show_bits x; show_pos p]
+  | EStr s p => paren [[115;116;114]; enc_text s; show_pos p]
+  | EVar x p => paren [[118;97;114]; fst (kind_name TIdent); enc_text x; show_pos p; show_pos p]
+  | EList es p => paren [[108;105;115;116]; brack (map show_expr es); show_pos p]
+  | ERec ks vs p => paren [[114;101;99]; brack (map show_expr ks); brack (map show_expr vs); show_pos p]
+  | EGroup e1 p => paren [[103;114;111;117;112]; show_expr e1; show_pos p]
+  | EUn o e1 p => paren [[117;110]; fst (kind_name (match o with UNeg => TMinus | UNot => TNot end)); show_expr e1; show_pos p]
+  | EBin o l r p => let '(v, k) := binop_names o in paren [[98;105;110]; v; k; show_expr l; show_expr r; show_pos p]
+  | ECall f args p => paren [[99;97;108;108]; show_expr f; brack (map show_expr args); show_pos p]
+  | EIndex a i p => paren [[105;110;100;101;120]; show_expr a; show_expr i; show_pos p]
+  end.
+
+Definition show_stmt (s : fstmt) : text :=
+  match s with
+  | FPrint e p => paren [[112;114;105;110;116]; show_expr e; show_pos p]
+  | FPrintNoEol e p => paren [[112;114;105;110;116;110]; show_expr e; show_pos p]
+  | FAssign k x xp idx init p =>
+      paren [[97;115;115;105;103;110]; (match k with AFirst => [70;105;114;115;116] | AReassign => [82;101] end); enc_text x; show_pos xp;
+             brack (map show_expr idx); (match init with Some e => show_expr e | None => [110;111;110;101] end); show_pos p]
+  | FExpr e p => paren [[101;120;112;114]; show_expr e; show_pos p]
+  | FBlockStart p => paren [[98;115]; show_pos p]
+  | FBlockEnd p => paren [[98;101]; show_pos p]
+  | FFuncDef p => paren [[102;117;110;99;100;101;102]; show_pos p]
+  | FReturn e p => paren [[114;101;116;117;114;110]; show_expr e; show_pos p]
+  | FIf c p => paren [[105;102]; show_expr c; show_pos p]
+  | FLoop p => paren [[108;111;111;112]; show_pos p]
+  | FContinue p => paren [[99;111;110;116;105;110;117;101]; show_pos p]
+  | FBreak p => paren [[98;114;101;97;107]; show_pos p]
+  | FElse p => paren [[101;108;115;101]; show_pos p]
+  | FEOS p => paren [[101;111;115]; show_pos p]
+  end.
+
+Definition show_program (ss : list fstmt) : text := [111;107;32] ++ join [sp] (map show_stmt ss).
